@@ -158,6 +158,23 @@ func ruleCniAddDel(c *Ctx, rule string) {
 	}
 }
 
+// every delegate is invoked with the configuration AND the interface name of the same saved network entry
+func ruleDelegateArgs(c *Ctx, rule string) {
+	for _, it := range []struct{ fn, callee string }{{"CmdAdd", "DelegateAdd"}, {"CmdDel", "DelegateDel"}} {
+		fn := c.MustFn(rule, cniutilPkg, it.fn)
+		if fn == nil {
+			continue
+		}
+		for _, d := range calls(fn, cniutilPkg+"."+it.callee) {
+			a := d.Common().Args
+			b1, f1, ok1 := fieldLoad(a[0])
+			b2, f2, ok2 := fieldLoad(a[2])
+			ok := ok1 && ok2 && f1 == "Conf" && f2 == "IfName" && b1 == b2
+			c.ob(rule, fn, it.callee+" gets Conf and IfName of the same network entry", d, ok, it.callee+"(n.Conf, args, n.IfName) with one n: what a plugin receives depends only on its own saved entry, not on the position in a retried list")
+		}
+	}
+}
+
 // C12.R3 / C14.R1 — port mapping pairing in the request handler.
 func ruleRequestPortMapping(c *Ctx, rule string) {
 	fn := c.MustFn(rule, galaxyPkg, "(*Galaxy).requestFunc")
